@@ -570,3 +570,16 @@ _extend("C11",
           "ResolveWalk: exports/imports interplay, PnP, NODE_PATH, externals, symlinks, package aliases, the CSS extension order, autoMain, jsconfig.json, package-style extends, Windows paths and log messages are not modelled; the ResolveWalk theorems are structural (precedence order), the full walk is tied differentially"],
     scope="internal/resolver/resolver.go: matchTSConfigPaths, the no-baseUrl filter of parseTSConfigFromSource, tsConfigForDir, the tsconfig stage and node_modules walk of loadNodeModules (+ tryToResolvePackage), resolveWithoutSymlinks, resolveWithoutRemapping, loadAsFile / loadAsDirectory / loadAsMainField / loadAsIndex / loadAsIndexWithBrowserRemapping, IsPackagePath, the isNodeModules / hasNodeModules / enclosingBrowserScope / enclosingTSConfigJSON parts of dirInfoUncached; tsconfig_json.go: isValidTSConfigPathPattern, isValidTSConfigPathNoBaseURLPattern, getSubstitutedPathWithConfigDirTemplate, paths / baseUrl / extends of ParseTSConfigJSON, applyExtendedConfig; package_json.go: the browser part of parsePackageJSON, checkBrowserMap, esmParsePackageName — against Spec/TsPaths.lean (TypeScript handbook) and Spec/BrowserField.lean (package-browser-field-spec, rules F1-F6)",
     assumptions=["tspaths: a Go map is an association list with pairwise distinct keys; `load` (loadAsFileOrDirectory) is a parameter of the paths theorems; Go's path.Join is shared by model and browser spec; the walk model covers worlds without exports/imports maps, PnP, NODE_PATH, externals, symlinks, aliases, CSS imports, with MainFields=[main] and lower-case file names; extends covers relative/absolute file paths only; the Go recursion is modelled with fuel 600 (OVERFLOW = Go stack overflow); the generator never produces browser-map cycles (they kill the Go process)"])
+
+# glob (C04): package.json sideEffects patterns and import globs
+_extend("C04",
+    lean_modules=["EsbuildModel.Props.C04Glob", "EsbuildModel.Props.C04GlobImport"],
+    theorems=_thms("C04Glob", "miniregex_matcher_correct glob_total escape_complete literal_pattern_matches_only_itself glob_regex_exact glob_regex_is_glob_partial glob_regex_sound glob_regex_bytes glob_regex_bytes_valid sideeffects_no_panic sideeffects_entry_keeps_file sideeffects_invalid_utf8_keeps_all")
+             + _thms("C04GlobImport", "import_glob_escape_complete import_glob_regex_exact import_glob_bytes_ascii template_glob_is_documented_glob template_glob_subset_runtime template_glob_sound_partial resolve_glob_no_panic import_glob_compile_any resolve_glob_invalid_utf8_no_result entry_glob_regex_exact entry_glob_is_glob_partial"),
+    open=["C04Glob.glob_regex_is_glob (regexp = Spec/Glob for ALL patterns): FALSE of the code: `?` is `.` (matches `/`; does not match U+000A: a file `a<LF>b.js` is dropped under [\"./a?b.js\"]), `a/**/` also matches `a/x`; proved: _partial (no `?`, last token not `**/`) and glob_regex_sound / sideeffects_entry_keeps_file (spec match and no U+000A implies kept, all patterns); observation (webpack's regexp does the same)",
+          "C04Glob dialect: `{a,b}` and `[a-z]` are literal in esbuild (documented: only `*` and `?`), webpack's glob-to-regexp reads them: [\"*.{css,js}\"] drops other.js; observation",
+          "C04GlobImport.template_glob_sound (every path the expression can evaluate to is bundled): FALSE (documented): a hole not preceded by `/` is `*`; proved under holesAfterSlash; observation: the runtime helper __glob throws synchronously for a missing module where import() would reject",
+          "ResolveGlob's directory walk (symlinks, externals, case-insensitive entries) is modelled as a filter and tied only by the kernel; fs.Join = Unix path.Clean only"],
+    kernels=[("glob", 6000, 200000)],
+    scope="internal/resolver/package_json.go globstarToEscapedRegexp and the sideEffects-array loop of parsePackageJSON (UTF16ToString, `**/` prefix, fs.Join, backslash replacement, regexp.Compile with the empty-regexp fallback, map vs regexps); resolver.go: the sideEffectsMap/sideEffectsRegexps lookup, ResolveGlob (prefix test, leading directories, regexp text, QuoteMeta, regexp.Compile with the nil fallback, walk as a filter); helpers/glob.go ParseGlobPattern, GlobPatternToString; js_parser.go parts loop of handleGlobPattern; Go regexp.Compile/MatchString restricted to the fragment of Spec/MiniRegex with Go's UTF-8 decoding (ill-formed bytes = U+FFFD) in front",
+    assumptions=["glob: Spec/MiniRegex parser+matcher = Go regexp on the generated texts (tied by the kernel against the real regexp package); Spec/Glob is the package author's reading of the dialect (`*`, `?`, `**` as a whole segment; `[ ]` and `{ }` literal); mock/Unix file system: Join = path.Clean, trailing slashes trimmed before directory lookup"])
